@@ -72,6 +72,13 @@ Theorem C16_control_block_roundtrip : forall liftable c,
 Proof. exact parse_ser_cb. Qed.
 Print Assumptions C16_control_block_roundtrip.
 
+(* the depth bound: 128 nodes (4129 bytes) is accepted by the theorem above, anything longer
+   is refused by ParseControlBlock *)
+Theorem C16_control_block_max_size : forall liftable bs,
+  cb_max_size < length bs -> parse_cb liftable bs = None.
+Proof. exact parse_cb_rejects_long. Qed.
+Print Assumptions C16_control_block_max_size.
+
 (* the PSET input key pair of a tap leaf script round-trips *)
 Theorem C16_pset_tapleaf_roundtrip : forall liftable l c,
   wf_cb liftable c -> cb_version c = tlf_version l ->
